@@ -24,7 +24,7 @@ TASK: produce {n} DIFFERENT, independent, realistic code changes ("seeded bugs")
 For EACH change i = 1..{n}:
  1. Start from a clean tree (git -C {wt} checkout -- . ; git -C {wt} clean -fdq).
  2. Make the change. Verify `go build ./...` and the existing `go test -count=1 ./...` of the affected module(s) pass (binance ecdsa tests are slow, ~1-2 min; that is fine).
- 3. Write a demonstration: a NEW Go test file (e.g. <pkg>/seeded_demo_test.go) or small program that FAILS with the change and PASSES without it. Verify both directions yourself (run it on the changed tree, then `git stash` / reapply, or copy the demo to a clean tree). The demonstration should fail because the property is violated, deterministically or with high probability within a minute.
+ 3. Write a demonstration: a NEW Go test file (e.g. <pkg>/seeded_demo_test.go) or small program that FAILS with the change and PASSES without it. Verify both directions yourself (run it on the changed tree; then save your change with `git diff > /tmp/seed-out/{pid}/cur.diff`, `git checkout -- .`, run the demo again, and re-apply with `git apply`. NEVER use `git stash`: the stash is shared with other worktrees of this repository and other people are working in them). The demonstration should fail because the property is violated, deterministically or with high probability within a minute.
  4. Save into /tmp/seed-out/{pid}/m<i>/ : patch.diff (output of `git diff` for the library change ONLY, without the demo file), the demo file(s), and notes.md saying: what the change is, why it violates the property, what specific condition is needed for it to manifest, exact commands you ran for the demo in both directions with their outcome, and confirmation that the existing tests pass.
  5. Restore the tree before the next change.
 
